@@ -25,6 +25,10 @@ CHECKS = {
          "other",
          "Decides, for all build/config version pairs, the structure of the gate rather than sampled verdicts: semver functions only ever see v-prefixed operands; verdict-relevant conditions see versions only through Major/MajorMinor (patch/prerelease cannot matter); exactly the three documented rejection rules exist, each under the documented guards; skip conditions dominate everything; parse rules of Version.UnmarshalYAML; the build version's path from ldflags to the validator. semver's own semantics are trusted.",
          "DESIGN.md §4 C18"),
+ "C19": ("wiring-model extraction from gontainer.go (AST + go/types) and from the YAML files in Makefile order, structural comparison of the two models; re-instantiation of the templates on the extracted model",
+         "translation_validation",
+         "Validates the one program the property is about: the checked-in generated container against its YAML sources, item by item (meta, parameters, every service's creation symbol, ordered arguments by kind and payload, fields, calls, tags, scope, todo, decorators, getters and their types). A disagreement is reported with both sides. The generator itself is not run, so byte identity of a regenerated file and alias numbering are not decided.",
+         "DESIGN.md §4 C19"),
 }
 NOT_YET = "check not built yet in this session (design in DESIGN.md §4); will be claimed once its rules run on /repo"
 
